@@ -563,6 +563,17 @@ def _char_col_offset(text: FileText, lineno: int, col_offset: int) -> int:
     return len(line.encode("utf-8")[:col_offset].decode("utf-8", "replace"))
 
 
+def _ends_with_backslash(line: str) -> bool:
+    """
+    Whether ``line`` (without its newline) ends with a line-continuation
+    backslash.  With CRLF line ends the lines of a `FileText` keep their
+    carriage return.
+    """
+    if line.endswith("\r"):
+        line = line[:-1]
+    return line.endswith("\\")
+
+
 def _split_code_lines(ast_nodes, text):
     """
     Split the given ``ast_nodes`` and corresponding ``text`` by code/noncode
@@ -630,7 +641,7 @@ def _split_code_lines(ast_nodes, text):
                         assert startpos.lineno < endpos.lineno
                         # (A backslash that ends a comment line does not
                         # continue anything; same test as in the loop below.)
-                        if (not text[endpos.lineno-1].endswith("\\") or
+                        if (not _ends_with_backslash(text[endpos.lineno-1]) or
                             (endpos.lineno-1 > last_node_lineno and
                              _is_comment_or_blank(text[endpos.lineno-1]))):
                             endpos = FilePos(endpos.lineno,1)
@@ -646,7 +657,7 @@ def _split_code_lines(ast_nodes, text):
             if endpos.colno == 1:
                 while (endpos.lineno-1 > last_node_lineno and
                        _is_comment_or_blank(text[endpos.lineno-1]) and
-                       (not text[endpos.lineno-2].endswith("\\") or
+                       (not _ends_with_backslash(text[endpos.lineno-2]) or
                         (endpos.lineno-2 > last_node_lineno and
                          _is_comment_or_blank(text[endpos.lineno-2])))):
                     endpos = FilePos(endpos.lineno-1, 1)
